@@ -5,6 +5,7 @@ One run = one dataset recipe x one operation x one chunking x one simulated sche
   sync = op(chunked data).compute(scheduler="sync")         clause 1 (succeeds) + clause 2 (== ref)
   sim  = op(chunked data).compute(threads, pool=SimPool)    clause 1 + clause 3 (== sync, bit-exact)
 """
+import json
 import random
 import warnings
 
@@ -161,13 +162,25 @@ def gen_plan(rng, tier="quick"):
         "d": rng.randint(1, 3),
         "expected_points": rng.choice([200, 1000, 5000]),
     }
-    return {"engine": NAME, "recipe": recipe, "op": op, "chunks": chunks, "aux": aux, "aux_chunks": aux_chunks, "coords": coords, "cfg": cfg}
+    plan = {"engine": NAME, "recipe": recipe, "op": op, "chunks": chunks, "aux": aux, "aux_chunks": aux_chunks, "coords": coords, "cfg": cfg}
+    if rng.random() < 0.15 and op["m"] not in ("sel", "interp"):
+        # a second dataset on another spectral grid goes through the same operation in the same compute
+        # (dask.compute(a, b)): tasks of the two graphs interleave on the same workers
+        r2 = json.loads(json.dumps(recipe))
+        r2["nf"] = max(3, recipe["nf"] + rng.choice([-2, -1, 1, 2, 3]))
+        if recipe["nd"]:
+            r2["nd"] = rng.choice([n for n in (3, 4, 5, 6, 8, 9, 12, 16) if n != recipe["nd"]])
+        r2["data"]["seed"] = rng.randrange(10**6)
+        if rng.random() < 0.5:
+            r2["nf"], r2["nd"] = recipe["nf"], recipe["nd"]     # same grid, other contents
+        plan["pair"] = r2
+    return plan
 
 
 def shape(plan):
     ck = ",".join(f"{k}:{'w' if v == -1 else (v if isinstance(v, int) else 'u')}" for k, v in sorted(plan["chunks"].items()))
     c = plan["cfg"]
-    return f"{D.describe(plan['recipe'])}|{O.op_label(plan['op'])}|{ck}|aux={plan['aux']}|co={plan.get('coords', 'same')}|K{c['K']}cs{c['chunksize']}{c['strategy']}"
+    return f"{D.describe(plan['recipe'])}|{O.op_label(plan['op'])}|{ck}|aux={plan['aux']}|co={plan.get('coords', 'same')}{'|pair:' + D.describe(plan['pair']) if plan.get('pair') else ''}|K{c['K']}cs{c['chunksize']}{c['strategy']}"
 
 
 # ---------------------------------------------------------------------------------------
@@ -335,9 +348,47 @@ def execute(arg):
     sim.count("sync_ok")
     # ---- clause 3: simulated threaded scheduler ------------------------------------------
     f0 = _filters_digest()
+    pair_sync = None
+    if plan.get("pair"):
+        try:
+            ds_b = D.make_dataset(plan["pair"])
+            pplan = dict(plan, chunks={k: v for k, v in plan["chunks"].items() if not isinstance(v, list)})
+            dsc_b = apply_chunks(ds_b, pplan)
+            import dask
+
+            la, lb = O.apply_op(dsc, op), O.apply_op(dsc_b, op)
+            fa = list(la) if isinstance(la, tuple) else [la]
+            fb = list(lb) if isinstance(lb, tuple) else [lb]
+            # reference for the pair: the same joint compute on the synchronous scheduler (dask itself cannot merge
+            # some pairs of xarray graphs - 'Missing dependency' - whatever the scheduler; such pairs are skipped)
+            joint = dask.compute(*(fa + fb), scheduler="sync")
+            rb = joint[len(fa):]
+            pair_sync = cmp.canon(tuple(rb) if isinstance(lb, tuple) else rb[0])
+        except Exception:
+            pair_sync = None      # single-dataset run
+            sim.count("pair_skipped")
     try:
         lazy2 = O.apply_op(dsc, op)  # fresh graph, same keys (deterministic tokens)
-        if hasattr(lazy2, "compute"):
+        if pair_sync is not None:
+            import dask
+
+            lazy_b = O.apply_op(dsc_b, op)
+            flat_a = list(lazy2) if isinstance(lazy2, tuple) else [lazy2]
+            flat_b = list(lazy_b) if isinstance(lazy_b, tuple) else [lazy_b]
+
+            class _Pair:
+                def compute(self, **kw):
+                    return dask.compute(*(flat_a + flat_b), **kw)
+
+            both = simulated_compute(_Pair(), sim, cfg, repo, {"chunksize": cfg["chunksize"], "optimize_graph": cfg["optimize_graph"]})
+            sim.count("pair_computes")
+            ra, rb = both[: len(flat_a)], both[len(flat_a):]
+            simres = tuple(ra) if isinstance(lazy2, tuple) else ra[0]
+            simres_b = tuple(rb) if isinstance(lazy_b, tuple) else rb[0]
+            db = cmp.compare(pair_sync, cmp.canon(simres_b), rtol=None)
+            if db:
+                add("sched", f"preempt@{_preempt_files(sim)};pair", db[0], f"second dataset ({D.describe(plan['pair'])}) computed in the same dask.compute under the simulated threaded schedule differs from its synchronous result: {db[1]}")
+        elif hasattr(lazy2, "compute"):
             simres = simulated_compute(lazy2, sim, cfg, repo, {"chunksize": cfg["chunksize"], "optimize_graph": cfg["optimize_graph"]})
         elif isinstance(lazy2, tuple):
             import dask
@@ -427,6 +478,8 @@ def simplify(plan):
         variant(lambda p: p.update(aux="same", aux_chunks=None))
     if plan.get("coords", "same") != "same":
         variant(lambda p: p.update(coords="same"))
+    if plan.get("pair"):
+        variant(lambda p: p.pop("pair"))
     for key, val in (("nf", 3), ("nf", 5), ("nd", 4), ("nd", 8)):
         if r.get(key, 0) > val:
             def setk(p, key=key, val=val):
@@ -486,4 +539,4 @@ ASSUMPTIONS = [
     "interleaving is controlled at Python-line granularity inside wavespectra files and at the yield points of specpart.c (only when the calling thread has released the GIL); numpy/scipy/xarray internals run atomically under the baton",
     "clause 2 tolerances: bit-exact for partitions/splits/to_energy; rtol 1e-9 (float64) for reductions that cross chunks; 1e-6 for cancellation-prone widths; 2e-3 for fits; a tolerance-class mismatch is discarded when a 1-ulp perturbation of the input moves the in-memory answer as much (conditioning guard)",
 ]
-PROBES = ["sync_ok", "max_tasks_in_flight", "preempt_inside_task", "fault.duplicate", "fault.duplicate_concurrent", "fault.stall", "fault.preempt_py", "c_sites_gil_held", "rendezvous_met"]
+PROBES = ["sync_ok", "pair_computes", "max_tasks_in_flight", "preempt_inside_task", "fault.duplicate", "fault.duplicate_concurrent", "fault.stall", "fault.preempt_py", "c_sites_gil_held", "rendezvous_met"]
